@@ -170,7 +170,9 @@ def system_norm(system, p=2, tol=1e-6, print_warning=True, method=None):
                 # Else use scipy
                 else:
                     # Solve for controllability Gramian
-                    P = ct.lyap(A, B@B.T, method=method)
+                    # (a system without states has an empty Gramian)
+                    P = ct.lyap(A, B@B.T, method=method) \
+                        if G.nstates > 0 else np.zeros((0, 0))
 
                     # System is stable to reach this point, and P should be
                     # positive semi-definite.  Test next is a precaution in
@@ -215,7 +217,9 @@ def system_norm(system, p=2, tol=1e-6, print_warning=True, method=None):
 
                 # Else use scipy
                 else:
-                    P = ct.dlyap(A, B@B.T, method=method)
+                    # (a system without states has an empty Gramian)
+                    P = ct.dlyap(A, B@B.T, method=method) \
+                        if G.nstates > 0 else np.zeros((0, 0))
 
                 # System is stable to reach this point, and P should be
                 # positive semi-definite.  Test next is a precaution in
